@@ -96,6 +96,12 @@ def _cmp_atom(op: ast.cmpop, a: ast.AST, b: ast.AST) -> BF:
     if isinstance(op, ast.LtE):
         return mk_not(_cmp_atom(ast.Lt(), b, a))
     if isinstance(op, ast.In):
+        if isinstance(b, ast.IfExp):
+            c = parse(b.test)
+            return mk_or([mk_and([c, _cmp_atom(ast.In(), a, b.body)]), mk_and([mk_not(c), _cmp_atom(ast.In(), a, b.orelse)])])
+        if (isinstance(b, (ast.List, ast.Tuple, ast.Set)) and not b.elts) or (isinstance(b, ast.Dict) and not b.keys) or \
+                (isinstance(b, ast.Call) and isinstance(b.func, ast.Name) and b.func.id in ("set", "list", "tuple", "dict", "frozenset") and not b.args and not b.keywords):
+            return F        # nothing is a member of an empty container
         if isinstance(b, (ast.List, ast.Tuple, ast.Set)) and b.elts and all(isinstance(x, (ast.Name, ast.Attribute, ast.Constant)) for x in b.elts):
             # membership in a literal container does not depend on its kind or order: it is the disjunction of the equalities
             return mk_or([_cmp_atom(ast.Eq(), a, x) for x in b.elts])
